@@ -34,7 +34,7 @@ ASSUMPTIONS = ["k-point coordinates lie within 4e-9 of the exact mesh values m/N
                "that all kpoints are on the grid'), so a subset that is itself a complete coarser mesh is accepted with the coarser grid",
                "get_mp_grid on an incomplete list: only 'normal return => every point lies on the returned grid, which divides N' is demanded (the completeness "
                "assertion is commented out in the code and the property does not require rejection there)"]
-OUTSIDE = ["all nk! orderings for meshes above the stated point counts (covered there by one symbolic edit of seeded base orderings only)",
+OUTSIDE = ["truncation (astype(int)) of values within 1e-12 of an integer (real-number and IEEE evaluation of k*N may land on different sides)", "all nk! orderings for meshes above the stated point counts (covered there by one symbolic edit of seeded base orderings only)",
            "IEEE rounding inside x*1e8 / rint / limit_denominator (real-number semantics; doubles taken exactly)",
            "denominators above 100 (not supported by the code)", "coordinates outside [0,1) by more than the perturbation"]
 STUBS = ["np.round on symbolic c+delta: finite set of candidate roundings with exact z3 guards (round-half-even), kept as a Lifted value (get_mp_grid) or forked (grid_from_kpoints)",
@@ -291,10 +291,15 @@ def trunc_fork(x):
         return nlo
     xz = x.zreal()
     alts = []
-    for n in range(nlo, nhi + 1):
-        g = z3.And(xz > n - 1, xz < n + 1) if n == 0 else (z3.And(xz >= n, xz < n + 1) if n > 0 else z3.And(xz > n - 1, xz <= n))
+    eps = z3.Q(1, 10 ** 12)
+    for n in range(nlo, nhi + 1):           # truncation = n, at least 1e-12 away from the integers where it jumps
+        g = z3.And(xz > n - 1 + eps, xz < n + 1 - eps) if n == 0 else (z3.And(xz >= n + eps, xz < n + 1 - eps) if n > 0 else z3.And(xz > n - 1 + eps, xz <= n - eps))
         alts.append((g, n))
-    return Lifted(alts).concretize()
+    alts.append((z3.Not(z3.Or(*[g for g, _ in alts])), None))
+    r = Lifted(alts).concretize()
+    if r is None:
+        raise Assume("value within 1e-12 of an integer where truncation jumps: real-number and IEEE semantics may differ")
+    return r
 
 
 class KArr(SymArray):
@@ -409,10 +414,10 @@ def case_mesh(rec, fn, mesh, model, seed, L=None, base="shuffled", first=None, g
         what = {"get_mp_grid": "get_mp_grid: complete mesh => N; otherwise returned grid contains all points",
                 "grid_from_kpoints": "grid_from_kpoints: complete => grid / each point once; incomplete => ValueError"}[fn]
         rec.concrete(what, ok, detail=txt, key=f"{fn}(grid={'None' if g is None else 'given'}) {outcome[0]} disagrees with the specification")
-    # path budget: the list model alone determines the number of paths on the code as it is (x rounding forks of the sub-grid cases); a changed code that forks on
+    # path budget: the list model alone determines the number of paths on the code as it is (measured ratio 1.0; up to 12 for the sub-grid cases, which fork on round(0.5+-)); a changed code that forks on
     # every coordinate must end as 'budget exhausted' (inconclusive, never success) instead of running for hours
     expected = _weight(dict(mesh=mesh, model=model, L=L, first=first)) // (10 + nk)
-    rec.explore(body, ass, maxpaths=6 * expected + 60)
+    rec.explore(body, ass, maxpaths=(16 * expected + 60) if isinstance(grid, tuple) else (3 * expected) // 2 + 20)
 
 
 def case_stub_validation(rec, seed):
